@@ -351,9 +351,87 @@ fn fault_backend<B: Backend>(opts: &Opts, rep: &mut Report) {
                 Ok(Err(e)) => {
                     rep.count(&format!("fail-closed.err.{}", err_kind(&e)));
                     rep.sample_class("fail-closed", 6, || detail(&format!("Err({})", err_kind(&e))));
+                    // the failure must not leave stale or default randomness behind: the next healthy
+                    // operations on this thread still draw from the OS and produce distinct outputs
+                    let mut outs = vec![];
+                    let mut os_draws = 0;
+                    for _ in 0..40 {
+                        let (r2, st2) = shim.window(-1, -1, None, || guard(|| (op.run)()));
+                        os_draws += st2.draws;
+                        match r2 {
+                            Ok(Ok(o)) => outs.push(o),
+                            other => {
+                                rep.violation(&format!("C16|{class}|operation-fails-after-recovered-rng-failure"), detail(&format!("{:?}", other.map(|r| r.map(|_| ()).map_err(|e| err_kind(&e))))));
+                                break;
+                            }
+                        }
+                    }
+                    let distinct: std::collections::HashSet<&String> = outs.iter().collect();
+                    if distinct.len() != outs.len() {
+                        rep.violation(&format!("C16|{class}|outputs-repeat-after-rng-failure"), detail("operations following a failed draw produced identical outputs"));
+                    }
+                    if outs.len() == 40 && os_draws < 40 {
+                        rep.violation(&format!("C16|{class}|no-os-draw-after-rng-failure"), detail(&format!("40 operations after a failed draw made only {os_draws} OS draws (baseline {} per operation)", st0.draws)));
+                    }
+                    rep.count("post-failure-freshness-checked");
                 }
                 Ok(Ok(out)) => rep.violation(&format!("C16|{class}|output-produced-despite-rng-failure"), detail(&format!("operation returned Ok: {}", out.chars().take(200).collect::<String>()))),
                 Err(pn) => rep.violation(&format!("C16|{class}|panic-on-rng-failure"), detail(&format!("no output, but a panic instead of an error: {pn}"))),
+            }
+        }
+        // 2b. sustained failure: the RNG keeps failing while the operation is repeated, until a draw is
+        //     actually reached (an implementation that buffers randomness draws only now and then);
+        //     the operation that hits the failed draw must return Err, and afterwards - RNG healthy
+        //     again - outputs must be fresh and the OS must be consulted again
+        {
+            let mut reached = false;
+            // everything this operation has produced so far in this process
+            let mut seen: std::collections::HashSet<String> = Default::default();
+            for _ in 0..40 {
+                if let (Ok(Ok(o)), _) = shim.window(-1, -1, None, || guard(|| (op.run)())) {
+                    seen.insert(o);
+                }
+            }
+            for attempt in 0..200 {
+                let (r, st) = shim.window(0, -1, None, || guard(|| (op.run)()));
+                if st.failed == 0 {
+                    // served without touching the OS: legitimate only if the output is still fresh
+                    if let Ok(Ok(o)) = r {
+                        if !seen.insert(o) {
+                            rep.violation(&format!("C16|{class}|outputs-repeat"), json!({"backend": B::NAME, "operation": op.name, "mode": "no OS draw needed"}));
+                        }
+                    }
+                    continue;
+                }
+                reached = true;
+                let label = format!("{class}.sustained-failure");
+                rep.case(&label, fnv(label.as_bytes()) ^ attempt, true);
+                match r {
+                    Ok(Err(e)) => rep.count(&format!("fail-closed.err.{}", err_kind(&e))),
+                    Ok(Ok(out)) => rep.violation(&format!("C16|{class}|output-produced-despite-rng-failure"), json!({"backend": B::NAME, "operation": op.name, "mode": "sustained failure", "attempt": attempt, "output": out.chars().take(200).collect::<String>()})),
+                    Err(pn) => rep.violation(&format!("C16|{class}|panic-on-rng-failure"), json!({"backend": B::NAME, "operation": op.name, "mode": "sustained failure", "panic": pn})),
+                }
+                break;
+            }
+            if reached {
+                let mut outs = vec![];
+                let mut os_draws = 0;
+                for _ in 0..80 {
+                    let (r2, st2) = shim.window(-1, -1, None, || guard(|| (op.run)()));
+                    os_draws += st2.draws;
+                    if let Ok(Ok(o)) = r2 {
+                        outs.push(o);
+                    }
+                }
+                let distinct: std::collections::HashSet<&String> = outs.iter().collect();
+                let stale = outs.iter().filter(|o| seen.contains(*o)).count();
+                if distinct.len() != outs.len() || stale > 0 {
+                    rep.violation(&format!("C16|{class}|outputs-repeat-after-rng-failure"), json!({"backend": B::NAME, "operation": op.name, "outputs": outs.len(), "distinct": distinct.len(), "equal_to_outputs_from_before_the_failure": stale}));
+                }
+                if os_draws == 0 {
+                    rep.violation(&format!("C16|{class}|no-os-draw-after-rng-failure"), json!({"backend": B::NAME, "operation": op.name, "operations_after_failure": 80, "os_draws": os_draws}));
+                }
+                rep.count("post-failure-freshness-checked");
             }
         }
         // 3. a legal short read at every draw index must be survived
